@@ -182,10 +182,10 @@ example : encodeAs .multivalued [[1, 2], [], [3], []] = (.multivalued [0, 2] 4 [
 /-- looking documents up by a value range on the u64 images (what the column stores) is looking
 them up by the signed order for i64 columns and by the IEEE total order for f64 columns -/
 theorem C08_range_lookup (col : Column (BitVec 64)) (lo hi : BitVec 64) :
-    docsInRange (fun v => (Gen.i64_to_u64 v).toNat) col (Gen.i64_to_u64 lo).toNat (Gen.i64_to_u64 hi).toNat
+    docsInRange (fun v => (Gen.Col.i64_to_u64 v).toNat) col (Gen.Col.i64_to_u64 lo).toNat (Gen.Col.i64_to_u64 hi).toNat
       = (List.range col.length).filter (fun d => (col.getD d []).any
           (fun v => decide (lo.toInt ≤ v.toInt) && decide (v.toInt ≤ hi.toInt))) ∧
-    docsInRange (fun v => (Gen.f64_to_u64 v).toNat) col (Gen.f64_to_u64 lo).toNat (Gen.f64_to_u64 hi).toNat
+    docsInRange (fun v => (Gen.Col.f64_to_u64 v).toNat) col (Gen.Col.f64_to_u64 lo).toNat (Gen.Col.f64_to_u64 hi).toNat
       = (List.range col.length).filter (fun d => (col.getD d []).any
           (fun v => decide (f64Key lo ≤ f64Key v) && decide (f64Key v ≤ f64Key hi))) := by
   unfold docsInRange
@@ -266,10 +266,10 @@ order, and `u64_to_i64` is its two-sided inverse; `f64_to_u64` is the IEEE total
 (`f64Key`: −∞ < … < −0 < +0 < … < +∞) shifted by `2^63`, hence strictly monotone and injective on
 NaN-free floats, and `u64_to_f64` is its two-sided inverse. -/
 theorem C08_monotonic_mappings :
-    (∀ a b : BitVec 64, (Gen.i64_to_u64 a).toNat < (Gen.i64_to_u64 b).toNat ↔ a.toInt < b.toInt) ∧
-    (∀ a : BitVec 64, Gen.u64_to_i64 (Gen.i64_to_u64 a) = a ∧ Gen.i64_to_u64 (Gen.u64_to_i64 a) = a) ∧
-    (∀ a b : BitVec 64, (Gen.f64_to_u64 a).toNat < (Gen.f64_to_u64 b).toNat ↔ f64Key a < f64Key b) ∧
-    (∀ a : BitVec 64, Gen.u64_to_f64 (Gen.f64_to_u64 a) = a ∧ Gen.f64_to_u64 (Gen.u64_to_f64 a) = a) := by
+    (∀ a b : BitVec 64, (Gen.Col.i64_to_u64 a).toNat < (Gen.Col.i64_to_u64 b).toNat ↔ a.toInt < b.toInt) ∧
+    (∀ a : BitVec 64, Gen.Col.u64_to_i64 (Gen.Col.i64_to_u64 a) = a ∧ Gen.Col.i64_to_u64 (Gen.Col.u64_to_i64 a) = a) ∧
+    (∀ a b : BitVec 64, (Gen.Col.f64_to_u64 a).toNat < (Gen.Col.f64_to_u64 b).toNat ↔ f64Key a < f64Key b) ∧
+    (∀ a : BitVec 64, Gen.Col.u64_to_f64 (Gen.Col.f64_to_u64 a) = a ∧ Gen.Col.f64_to_u64 (Gen.Col.u64_to_f64 a) = a) := by
   refine ⟨?_, fun a => ⟨u64_to_i64_i64_to_u64 a, i64_to_u64_u64_to_i64 a⟩, ?_,
     fun a => ⟨u64_to_f64_f64_to_u64 a, f64_to_u64_u64_to_f64 a⟩⟩
   · intro a b
@@ -282,8 +282,8 @@ theorem C08_monotonic_mappings :
     omega
 
 -- −0.0 (0x8000…) sorts just below +0.0 (0); −∞ (0xFFF0…) below −1.0 (0xBFF0…)
-example : (Gen.f64_to_u64 0x8000000000000000#64).toNat + 1 = (Gen.f64_to_u64 0#64).toNat := by decide
-example : (Gen.f64_to_u64 0xFFF0000000000000#64).toNat < (Gen.f64_to_u64 0xBFF0000000000000#64).toNat := by decide
-example : Gen.i64_to_u64 0x8000000000000000#64 = 0#64 := by decide
+example : (Gen.Col.f64_to_u64 0x8000000000000000#64).toNat + 1 = (Gen.Col.f64_to_u64 0#64).toNat := by decide
+example : (Gen.Col.f64_to_u64 0xFFF0000000000000#64).toNat < (Gen.Col.f64_to_u64 0xBFF0000000000000#64).toNat := by decide
+example : Gen.Col.i64_to_u64 0x8000000000000000#64 = 0#64 := by decide
 
 end TantivyModel.C08
